@@ -434,7 +434,7 @@ class CategoricalClassification:
         if not isinstance(feature_indices, (list, np.ndarray)):
             feature_indices = np.array([feature_indices])
 
-        duplicated_ixs = np.arange(len(X[0]), (len(X[0]) + len(feature_indices) - 1), 1)
+        duplicated_ixs = np.arange(len(X[0]), (len(X[0]) + len(feature_indices)), 1)
 
         selected_features = X[:, feature_indices]
 
